@@ -321,8 +321,9 @@ def obligations(tier):
                               shard_depth=5, budget_s=1500, classify=classify, require_reach=["compared"],
                               describe=f"{b} vs the executable contract, every 2-call suffix"))
     if not q:
-        for b in ["inmemory", "journal", "grpc-journal"]:
-            obs.append(Obligation(f"lockstep-{b}-k3", make_body([b], 3, seed_states=("RUNNING", "WAITING")), setup, CODE,
-                                  bounds=dict(backend=b, suffix_calls=3), shard_depth=6, budget_s=3000, classify=classify, require_reach=["compared"],
-                                  describe=f"{b} vs the executable contract, every 3-call suffix"))
+        for b in ["inmemory", "journal"]:
+            obs.append(Obligation(f"lockstep-{b}-k3", make_body([b], 3, seed_states=("WAITING",), rich=False), setup, CODE,
+                                  bounds=dict(backend=b, suffix_calls=3, alphabet="lean for the first two calls, full for the third"), shard_depth=6,
+                                  budget_s=3000, classify=classify, require_reach=["compared"],
+                                  describe=f"{b} vs the executable contract, 3-call suffixes"))
     return obs
